@@ -74,6 +74,7 @@ Step ==
                             ELSE Stop(FALSE, "the awaited time had arrived but the wait did not end at once"))
                  ELSE IF e.t = FirstAtLeast(wakers, target) THEN Go(target, e.t, 0, "idle", 0, 0, <<>>, stopped)
                  ELSE Stop(FALSE, "TimeAt: not the first tick at or after the awaited time that found the script waiting")
+          [] e.e = "stuck" -> Stop(FALSE, "Stuck: every thread is blocked - a wait can never return")
           [] OTHER -> Stop(FALSE, "unknown event")
 
 Init == /\ rec \in 1..Len(Batch) /\ l = 1 /\ olo = 0 /\ ohi = 0 /\ cue = 0 /\ mode = "idle" /\ callT = 0 /\ target = 0
